@@ -47,11 +47,18 @@ theorem binop_comm {k : OpKind} (hk : k.commutative = true) {w : Nat} (x y : Bit
 theorem evalOp_other (n : String) (c : Bool) (w : Nat) (vs : List Val) :
     evalOp (.other n c) w vs = none := by
   unfold evalOp
-  split <;> simp [nullop, unop, binop]
+  split <;> simp [nullop, unop, binop, arithBin, cmpop, ternop]
 
-theorem evalOp_long (k : OpKind) (w : Nat) (x y z : Val) (t : List Val) :
-    evalOp k w (x :: y :: z :: t) = none := by
+theorem evalOp_long (k : OpKind) (w : Nat) (x y z u : Val) (t : List Val) :
+    evalOp k w (x :: y :: z :: u :: t) = none := by
   simp [evalOp]
+
+theorem cmpop_comm_none {k : OpKind} (hk : k.commutative = true) (w : Nat) (x y : Val) : cmpop k w x y = none := by
+  cases k <;> simp [OpKind.commutative] at hk <;> simp [cmpop]
+
+theorem ternop_comm_none {k : OpKind} (hk : k.commutative = true) (w : Nat) (c x y : Val) :
+    ternop k w c x y = none := by
+  cases k <;> simp [OpKind.commutative] at hk <;> simp [ternop]
 
 theorem evalOp_reverse {k : OpKind} (hk : k.commutative = true) (w : Nat) (vs : List Val) :
     evalOp k w vs.reverse = evalOp k w vs := by
@@ -60,13 +67,16 @@ theorem evalOp_reverse {k : OpKind} (hk : k.commutative = true) (w : Nat) (vs : 
   | [x] => rfl
   | [x, y] =>
     show evalOp k w [y, x] = evalOp k w [x, y]
-    simp only [evalOp]
+    simp only [evalOp, cmpop_comm_none hk, arithBin]
     by_cases hx : x.w = w <;> by_cases hy : y.w = w <;> simp [hx, hy, binop_comm hk]
-  | x :: y :: z :: t =>
+  | [x, y, z] =>
+    show evalOp k w [z, y, x] = evalOp k w [x, y, z]
+    simp only [evalOp, ternop_comm_none hk]
+  | x :: y :: z :: u :: t =>
     rw [evalOp_long]
-    have hlen : 3 ≤ (x :: y :: z :: t).reverse.length := by simp
-    match hr : (x :: y :: z :: t).reverse, hlen with
-    | a :: b :: c :: d, _ => rw [evalOp_long]
+    have hlen : 4 ≤ (x :: y :: z :: u :: t).reverse.length := by simp
+    match hr : (x :: y :: z :: u :: t).reverse, hlen with
+    | a :: b :: c :: d :: e, _ => rw [evalOp_long]
 
 /-! ## soundness of the fixed matcher -/
 
@@ -337,5 +347,145 @@ theorem clamp_comm (t mn mx : BitVec 32) (h : mx.slt mn = false) :
         exact e (by omega)
       · simp [BitVec.slt_eq_decide, h1, h2, h3, h4]
         exact e (by omega)
+
+theorem lowerLinalgBodyFixed_some {b : MBody} {r : Body} (h : lowerLinalgBodyFixed b = some r) :
+    ∃ kb : KBody, b = kb.toMBody ∧ kb.kernel.isParsable = true ∧ kb.canonical = true ∧ r = expand kb := by
+  obtain ⟨args, ops, ret⟩ := b
+  unfold lowerLinalgBodyFixed at h
+  split at h
+  · next k operands opTypes resWidth hops =>
+    split at h
+    · next hp =>
+      simp only [Option.some.injEq] at h
+      simp only at hops
+      simp only [Bool.and_eq_true] at hp
+      exact ⟨⟨args, k, operands, opTypes, resWidth, ret⟩, by simp [KBody.toMBody, hops], hp.1, hp.2, by simp [expand, h]⟩
+    · cases h
+  · cases h
+
+/-! ## fixed rescale lowering -/
+
+theorem toNat_ofInt_shift0 {s : Int} (h1 : 0 ≤ s) (h2 : s ≤ 63) : (BitVec.ofInt 64 s).toNat = s.toNat := by
+  rw [BitVec.toNat_ofInt, Int.emod_eq_of_lt (by omega) (by simp; omega)]
+
+theorem uniformParam_getElem {l : List Int} {s : Int} (h : uniformParam l = some s) (i : Nat) (hi : i < l.length) :
+    l[i]? = some s := by
+  cases l with
+  | nil => simp [uniformParam] at h
+  | cons a t =>
+    simp only [uniformParam] at h
+    split at h
+    · next hall =>
+      cases h
+      cases i with
+      | zero => rfl
+      | succ j =>
+        simp only [List.length_cons, Nat.add_lt_add_iff_right] at hi
+        simp only [List.getElem?_cons_succ, List.getElem?_eq_getElem hi, Option.some.injEq]
+        have := List.all_eq_true.mp hall t[j] (List.getElem_mem hi)
+        simpa using this
+    · cases h
+
+theorem uniformParam_mem {l : List Int} {s : Int} (h : uniformParam l = some s) : s ∈ l := by
+  cases l with
+  | nil => simp [uniformParam] at h
+  | cons a t =>
+    simp only [uniformParam] at h
+    split at h
+    · cases h; simp
+    · cases h
+
+theorem double_round_eq (t : BitVec 32) :
+    t + (if t.slt 0#32 then BitVec.ofInt 32 (-1) else BitVec.ofInt 32 1) = if (0#32).sle t then t + 1#32 else t - 1#32 := by
+  by_cases hn : t.toInt < 0
+  · have h1 : t.slt 0#32 = true := by simp [BitVec.slt_eq_decide, hn]
+    have h2 : (0#32).sle t = false := by simp [BitVec.sle_eq_decide]; omega
+    simp only [h1, h2, if_true, Bool.false_eq_true, if_false]
+    rw [BitVec.sub_eq_add_neg]; rfl
+  · have h1 : t.slt 0#32 = false := by simp [BitVec.slt_eq_decide]; omega
+    have h2 : (0#32).sle t = true := by simp [BitVec.sle_eq_decide]; omega
+    simp only [h1, h2, if_true, Bool.false_eq_true, if_false]
+    rfl
+
+
+theorem clip_bounds (t mn mx : BitVec 32) (h : mx.slt mn = false) :
+    let r := (if mx.slt (if t.slt mn then mn else t) then mx else (if t.slt mn then mn else t))
+    r.slt mn = false ∧ mx.slt r = false := by
+  simp only [BitVec.slt_eq_decide, decide_eq_false_iff_not, Int.not_lt] at h ⊢
+  by_cases h1 : t.toInt < mn.toInt <;> by_cases h2 : mx.toInt < t.toInt <;> by_cases h3 : mx.toInt < mn.toInt <;>
+    simp [h1, h2, h3] <;> omega
+
+theorem signExtend_exact (r : BitVec 32) (wr : Nat) (hpos : 0 < wr)
+    (hlo : -((2 ^ (wr - 1) : Nat) : Int) ≤ r.toInt) (hhi : r.toInt < ((2 ^ (wr - 1) : Nat) : Int)) :
+    (r.signExtend wr).toInt = r.toInt := by
+  by_cases h : 32 ≤ wr
+  · exact BitVec.toInt_signExtend_of_le h
+  · rw [BitVec.toInt_signExtend, Nat.min_eq_left (by omega)]
+    have hp : (2 : Nat) ^ wr = 2 * 2 ^ (wr - 1) := by
+      obtain ⟨k, rfl⟩ : ∃ k, wr = k + 1 := ⟨wr - 1, by omega⟩
+      simp [Nat.pow_succ, Nat.mul_comm]
+    apply Int.bmod_eq_of_le
+    · rw [hp]; omega
+    · rw [hp]; omega
+
+
+/-! ## a region that evaluates and yields the output type is a well-typed kernel instance -/
+
+theorem region_eval_typed (k : Kernel) (ins outs : List Val) (hk : k.isParsable = true)
+    (hlen : k.nOperands + 1 = ins.length)
+    (h : evalBody (equivalentRegion k (ins.map Val.w)) ins = some outs)
+    (hout : outs.map Val.w = [(ins.map Val.w).getLastD 0]) : kernelTyped k (ins.map Val.w) = true := by
+  cases k
+  · rcases ins with _ | ⟨⟨wa, a⟩, _ | ⟨⟨wb, b⟩, _ | ⟨⟨wc, c⟩, _ | ⟨d, t⟩⟩⟩⟩ <;> simp [Kernel.nOperands] at hlen
+    simp [evalBody, equivalentRegion, evalOps, stepOp, lookupAll, lookup, evalOp, arithBin, cmpop, binop] at h
+    by_cases hy : wb = wa
+    · subst hy; simp at h; subst h; simp at hout; simp [kernelTyped, hout]
+    · simp [hy] at h
+  · rcases ins with _ | ⟨⟨wa, a⟩, _ | ⟨⟨wb, b⟩, _ | ⟨⟨wc, c⟩, _ | ⟨d, t⟩⟩⟩⟩ <;> simp [Kernel.nOperands] at hlen
+    simp [evalBody, equivalentRegion, evalOps, stepOp, lookupAll, lookup, evalOp, arithBin, cmpop, binop] at h
+    by_cases hy : wb = wa
+    · subst hy; simp at h; subst h; simp at hout; simp [kernelTyped, hout]
+    · simp [hy] at h
+  · rcases ins with _ | ⟨⟨wa, a⟩, _ | ⟨⟨wb, b⟩, _ | ⟨⟨wc, c⟩, _ | ⟨d, t⟩⟩⟩⟩ <;> simp [Kernel.nOperands] at hlen
+    by_cases hac : wa = wc
+    · subst hac
+      simp [evalBody, equivalentRegion, evalOps, stepOp, lookupAll, lookup, evalOp, arithBin, cmpop, binop] at h
+      by_cases hy : wb = wa
+      · simp [kernelTyped, hy]
+      · simp [hy] at h
+    · simp [evalBody, equivalentRegion, evalOps, stepOp, lookupAll, lookup, evalOp, arithBin, cmpop, binop, unop, hac] at h
+      by_cases h1 : wa < wc <;> by_cases h2 : wb < wc <;> simp [h1, h2] at h
+      simp [kernelTyped, h1, h2]
+  · rcases ins with _ | ⟨⟨wa, a⟩, _ | ⟨⟨wb, b⟩, _ | ⟨⟨wza, za⟩, _ | ⟨⟨wzb, zb⟩, _ | ⟨⟨wc, c⟩, _ | ⟨d, t⟩⟩⟩⟩⟩⟩ <;>
+      simp [Kernel.nOperands] at hlen
+    simp [evalBody, equivalentRegion, evalOps, stepOp, lookupAll, lookup, evalOp, arithBin, cmpop, binop, unop] at h
+    by_cases h1 : wa < wza <;> by_cases h2 : wb < wzb <;> simp [h1, h2] at h
+    by_cases h3 : wzb = wza
+    · subst h3
+      simp at h
+      by_cases h4 : wzb = wc
+      · subst h4; simp [kernelTyped, h1, h2]
+      · simp [h4] at h
+    · simp [h3] at h
+  · simp [Kernel.isParsable] at hk
+
+theorem evalBody_some_widths {b : Body} {ins outs : List Val} (h : evalBody b ins = some outs) :
+    ins.map Val.w = b.args := by
+  unfold evalBody at h
+  split at h
+  · assumption
+  · cases h
+
+theorem recognize_shape {b : Body} {k : Kernel} (h : recognize true b = some k) :
+    k.isParsable = true ∧ k.nOperands + 1 = b.args.length := by
+  have hp := List.find?_some h
+  have hm := List.mem_of_find?_eq_some h
+  simp only [Bool.and_eq_true, beq_iff_eq] at hp
+  have h1 : k.isParsable = true := by
+    simp only [Kernel.parsable, List.mem_cons, List.not_mem_nil, or_false] at hm
+    rcases hm with rfl | rfl | rfl | rfl <;> rfl
+  refine ⟨h1, ?_⟩
+  have : 1 ≤ k.nOperands := by cases k <;> simp [Kernel.nOperands]
+  omega
 
 end SnaxVerif.Kernel
